@@ -27,9 +27,10 @@ from concurrent.futures import ThreadPoolExecutor
 
 from .. import build, driver
 
-F_PREFIX, F_MEM, F_FILE = 1, 2, 4
+F_PREFIX, F_MEM, F_FILE, F_PIPE, F_PIPEPRE, F_HISTORY = 1, 2, 4, 8, 16, 32
+KINDS = ("mem", "file", "pipe", "fopen", "path", "pathstr")  # delivery channels, see StreamKind in harness/c06.cc
 SLOT_NAMES = {0: "input", 1: "ppm", 2: "bmp", 3: "png"}
-R_BEGIN, R_LOAD, R_PSUM, R_PDIFF, R_SAVE, R_RT, R_END, R_DONE, R_LEAK = range(9)
+R_BEGIN, R_LOAD, R_PSUM, R_PDIFF, R_SAVE, R_RT, R_END, R_DONE, R_LEAK, R_ROUTE, R_RSAVE, R_RLOAD = range(12)
 MAXPREFIX = 4096
 TIMEOUT = {"quick": 1500, "thorough": 6 * 3600}  # watchdog per executor process (hang detector, not a budget)
 
@@ -465,12 +466,15 @@ def generate(tier, seed):
     cases = []
     rot = itertools.count(seed)  # rotating selector, offset by the seed
 
-    def add(kind, fam, group, name, want, file=None, value_oracle=True, both_streams=False, prefixes=True):
+    def add(kind, fam, group, name, want, file=None, value_oracle=True, both_streams=False, prefixes=True, history=False):
         c = Case()
         c.id = len(cases)
         c.kind = kind
         c.fam, c.group, c.name, c.want, c.file = fam, group, name, want, file
-        c.flags = (F_PREFIX if prefixes else 0) | F_MEM | (F_FILE if both_streams else 0)
+        # every case: fmemopen + a real pipe; the both_streams sample: additionally a real file through fdopen,
+        # fopen and the two path constructors (prefixes through one of them) and prefixes through the pipe
+        c.flags = (F_PREFIX if prefixes else 0) | F_MEM | F_PIPE | ((F_FILE | F_PIPEPRE) if both_streams else 0) | \
+                  (F_HISTORY if history else 0)
         c.value_oracle = value_oracle
         cases.append(c)
         return c
@@ -491,6 +495,7 @@ def generate(tier, seed):
         ("p7-gray", "GRAYSCALE", True, False, (8, 16), (32, 64)),
         ("p7-graya", "GRAYSCALE_ALPHA", True, True, (8, 16), (32, 64)),
     ]
+    ppm_rot = itertools.count(seed)  # own counter: `rot` advances twice per case, which would pin the parity
     for fam, tag, gray, alpha, cws, ext_cws in ppm_fams:
         for cw in cws + ext_cws:
             ext = cw in ext_cws
@@ -517,7 +522,7 @@ def generate(tier, seed):
                     famx = "%s-cw%d" % (fam, cw)
                     add(0, famx, fam + ("-ext" if ext else ""),
                         "%s %dx%d maxval=%d content=%s hdrstyle=%d len=%d" % (famx, w, h, maxval, content, style, len(f)),
-                        want, f, value_oracle=not ext, both_streams=(k % 8 == 0))
+                        want, f, value_oracle=not ext, both_streams=(next(ppm_rot) % 8 == 0))
 
     # ---- BMP family inputs ------------------------------------------------------------------
     bmp_variants = []  # (fam, bpp, bitfields, header_size, topdown, gap, perm)
@@ -570,6 +575,7 @@ def generate(tier, seed):
                     (" masks(rgba byte)=%s" % (perm,)) if bitf else "", len(f)), want, f, both_streams=True)
 
     # ---- save cases -------------------------------------------------------------------------
+    save_rot = itertools.count(seed)
     for cw in (8, 16, 32, 64):
         for alpha in (False, True):
             for di, (w, h) in enumerate(dims):
@@ -580,8 +586,9 @@ def generate(tier, seed):
                     data = gen_samples(rng, content, w * h * nch, cw, CW_MAX[cw], w, nch)
                     want = Im(w, h, alpha, cw, data)
                     fam = "save-cw%d%s" % (cw, "a" if alpha else "")
+                    r4 = next(save_rot) % 4
                     add(1, fam, "save", "%s %dx%d content=%s" % (fam, w, h, content), want,
-                        both_streams=(next(rot) % 4 == 0))
+                        both_streams=(r4 == 0), history=(w * h <= 64 and ci == 0) or r4 == 1)
     return cases
 
 
@@ -766,9 +773,103 @@ def absorb_runs(res, tag, group, runs, timeout):
         res.violation("%s[%s]" % (k, group), "executor process died (rc=%d)" % r["rc"], r["crumb"], meta=meta, stderr_tail=tail)
 
 
+def judge_saved(res, prefix, fmtn, data, want, casename):
+    """independent decode of bytes phosg saved for the image `want`"""
+    if fmtn == "ppm" and want.cw > 8:
+        # only the 8-bit PPM output is claimed to be externally valid; wider output is covered by
+        # the exact save->load round trip.  Decoded here (host-order convention) as an observation.
+        try:
+            got, maxval = decode_ppm(data)
+            ok = first_diff(want, got) == "identical" and maxval == CW_MAX[want.cw]
+        except DecodeError:
+            ok = False
+        res.count("observed-only:%s-ppm-wide:%s" % (prefix.split(":")[0], "host-order-decode-identical" if ok else "differs"))
+        return
+    try:
+        if fmtn == "png":
+            got = decode_png(data)
+        elif fmtn == "bmp":
+            got = decode_bmp(data)
+        else:
+            got, maxval = decode_ppm(data)
+            if maxval != CW_MAX[want.cw]:
+                raise DecodeError("maxval", "maxval %d for %d-bit channels" % (maxval, want.cw))
+    except DecodeError as ex:
+        res.violation("%s:%s:invalid:%s" % (prefix, fmtn, ex.cls), "independent decoder rejects the file: %s" % ex,
+                      casename + " bytes=" + data[:96].hex() + ("..." if len(data) > 96 else ""))
+        return
+    d = first_diff(want, got)
+    if d == "identical":
+        res.count("%s-decoded-identical:%s" % (prefix.split(":")[0], fmtn))
+    else:
+        res.violation("%s:%s:%s" % (prefix, fmtn, "header-fields" if d.startswith(("header", "data length")) else "pixels"),
+                      "independent decoder reads a different image: " + d, casename)
+
+
+def _head(b):
+    return repr(bytes(b[:44]))
+
+
+def judge_route(res, t, c, rd, routes, direct_saves):
+    """object-history records of a save case"""
+    route = rd.u(1)
+    if t == R_ROUTE:
+        cls, name, preserving = rd.blob().decode(), rd.blob().decode(), rd.u(1)
+        state = rd.img()
+        routes[(c.id, route)] = (cls, name, preserving, state)
+        res.cls("history:%s:cw%d" % (cls, c.want.cw))
+        if preserving and first_diff(c.want, state) != "identical":
+            res.violation("history:%s:object-state-differs" % cls, "the object reports another image than the one it was "
+                          "made from: " + first_diff(c.want, state), "%s route: %s" % (c.name, name))
+        return
+    cls, name, preserving, state = routes[(c.id, route)]
+    slot = rd.u(1)
+    fmtn = SLOT_NAMES[slot]
+    where = "%s route: %s -> save(%s)" % (c.name, name, fmtn)
+    if t == R_RSAVE:
+        status, eq = rd.u(1), rd.u(1)
+        res.evaluations += 1
+        if eq == 0:
+            res.count("history-save-identical-to-direct:%s" % cls)
+            return
+        if status:
+            et, ew = rd.blob().decode(errors="replace"), rd.blob().decode(errors="replace")
+            data = None
+        else:
+            data = rd.blob()
+        if eq == 1:
+            ref = direct_saves.get((c.id, slot))
+            res.violation("history:%s:%s:differs-from-direct-save" % (cls, fmtn),
+                          "saving the %s image gives other bytes than saving the directly constructed image with the same "
+                          "pixels: direct starts %s, this starts %s%s" % (
+                              cls, _head(ref) if ref is not None else "(direct save threw)",
+                              _head(data) if data is not None else "(threw %s: %s)" % (et, ew),
+                              "" if data is None or ref is None else " (lengths %d vs %d)" % (len(ref), len(data))), where)
+        if status:
+            if state.cw == 8 or fmtn == "ppm":
+                res.violation("history:%s:%s:threw" % (cls, fmtn), "save threw %s: %s" % (et, ew), where)
+            return
+        judge_saved(res, "history:%s" % cls, fmtn, data, state, where)
+    else:  # R_RLOAD: what phosg's own loader makes of the route's saved bytes
+        got = rd.img()
+        res.evaluations += 1
+        if isinstance(got, tuple):
+            res.violation("history:%s:roundtrip-%s:rejected" % (cls, fmtn), "phosg cannot load what it saved: %s: %s"
+                          % (got[1], got[2]), where)
+            return
+        d = first_diff(state, got)
+        if d == "identical":
+            res.count("history-roundtrip-identical:%s" % cls)
+        else:
+            res.violation("history:%s:roundtrip-%s:%s" % (cls, fmtn, "header-fields" if d.startswith(("header", "data length"))
+                                                          else "pixels"), "save -> load does not reproduce the image: " + d, where)
+
+
 def judge(cases_by_id, obs_paths, res, ran=None):
     """Reads observation records and applies the oracle."""
     begun, ended = set(), set()
+    routes = {}        # (case id, route) -> (class, name, preserving, reported state)
+    direct_saves = {}  # (case id, slot) -> bytes saved by the directly constructed image
     for path in obs_paths:
         for t, cid, rd in read_obs(path):
             if t == R_BEGIN:
@@ -790,6 +891,9 @@ def judge(cases_by_id, obs_paths, res, ran=None):
                                   "cases %d..%d: first=[%s] last=[%s]" % (first_id, cid, a.name, b.name))
                 continue
             c = cases_by_id[cid]
+            if t in (R_ROUTE, R_RSAVE, R_RLOAD):
+                judge_route(res, t, c, rd, routes, direct_saves)
+                continue
             slot = rd.u(1)
             # family label for keys: input family, or the saved format
             if c.kind == 0:
@@ -798,11 +902,16 @@ def judge(cases_by_id, obs_paths, res, ran=None):
                 fam = "saved-" + SLOT_NAMES[slot]
             cwtag = "cw%d%s" % (c.want.cw, "a" if c.want.alpha else "")
             if t == R_LOAD:
-                kind = "file" if rd.u(1) else "mem"
+                kind = KINDS[rd.u(1)]
                 got = rd.img()
                 res.evaluations += 1
                 op = "load" if c.kind == 0 else "roundtrip"
-                res.cls("%s:%s:%s:%s:%s" % (op, fam, cwtag, kind, _wmod(c.want.w)))
+                if kind == "mem":
+                    res.cls("%s:%s:%s:mem:%s" % (op, fam, cwtag, _wmod(c.want.w)))
+                elif kind == "pipe" and fam in ("bmp24", "saved-bmp"):  # row padding is skipped differently on a pipe
+                    res.cls("%s:%s:pipe:%s" % (op, fam, _wmod(c.want.w)))
+                else:
+                    res.cls("%s:%s:%s" % (op, fam, kind))
                 if isinstance(got, tuple) and not c.value_oracle:
                     res.count("observed-only:%s:rejected" % c.fam)
                     continue
@@ -826,14 +935,14 @@ def judge(cases_by_id, obs_paths, res, ran=None):
                 else:
                     res.violation("%s:%s:pixels" % (op, fam), d, c.name + " stream=" + kind)
             elif t == R_PSUM:
-                kind = "file" if rd.u(1) else "mem"
+                kind = KINDS[rd.u(1)]
                 flen, n_exc, n_same, n_diff, full_ok = rd.u(4), rd.u(4), rd.u(4), rd.u(4), rd.u(1)
                 et = rd.blob().decode(errors="replace")
                 res.evaluations += flen
                 res.count("prefixes:%s" % fam, flen)
                 res.count("prefixes-rejected", n_exc)
                 res.count("prefixes-decoded-identically", n_same)
-                res.cls("trunc:%s:%s:%s" % (fam, cwtag, kind), flen)
+                res.cls(("trunc:%s:%s:mem" % (fam, cwtag)) if kind == "mem" else ("trunc:%s:%s" % (fam, kind)), flen)
                 for item in et.split(";"):
                     if item:
                         name, _, n = item.rpartition("=")
@@ -845,7 +954,7 @@ def judge(cases_by_id, obs_paths, res, ran=None):
                     res.vcounts["trunc:%s:decodes-differently" % fam] = \
                         res.vcounts.get("trunc:%s:decodes-differently" % fam, 0) + max(0, n_diff - min(n_diff, 3))
             elif t == R_PDIFF:
-                kind = "file" if rd.u(1) else "mem"
+                kind = KINDS[rd.u(1)]
                 plen = rd.u(4)
                 got = rd.img()
                 d = first_diff(c.want, got) if not isinstance(got, tuple) else "?"
@@ -860,50 +969,24 @@ def judge(cases_by_id, obs_paths, res, ran=None):
                 res.evaluations += 1
                 if status:
                     et, ew = rd.blob().decode(errors="replace"), rd.blob().decode(errors="replace")
-                    fs = rd.u(1)
+                    data = None
+                else:
+                    data = rd.blob()
+                    direct_saves[(cid, slot)] = data
+                alt = (("save(FILE*)", rd.u(1)), ("save(const char* filename)", rd.u(1)), ("save(const std::string& filename)", rd.u(1)))
+                for wname, code in alt:
+                    res.cls("save-writer:%s:%s" % (fmtn, wname.split("(")[1].rstrip(")")))
+                    if code:
+                        res.violation("save:%s:writer-differs" % fmtn, "%s %s" % (wname, "produced different bytes than save()"
+                                      if code == 1 else "and save() disagree on whether the image can be saved"), c.name)
+                if status:
                     if c.want.cw == 8 or fmtn == "ppm":
                         res.violation("save:%s:threw" % fmtn, "save threw %s: %s" % (et, ew), c.name)
                     else:
                         res.cls("save:%s:%s:refused" % (fmtn, cwtag))  # documented: 8-bit only
-                        if fs:
-                            res.violation("save:%s:file-writer-differs" % fmtn, "save(FILE*) and save() disagree on "
-                                          "whether the image can be saved", c.name)
                     continue
-                data = rd.blob()
-                fs = rd.u(1)
-                if fs:
-                    res.violation("save:%s:file-writer-differs" % fmtn,
-                                  "save(FILE*) produced different bytes than save() (code %d)" % fs, c.name)
                 res.cls("save:%s:%s:%s" % (fmtn, cwtag, _wmod(c.want.w)))
-                if fmtn == "ppm" and c.want.cw > 8:
-                    # only the 8-bit PPM output is claimed to be externally valid; wider output is covered by
-                    # the exact save->load round trip.  Decoded here (host-order convention) as an observation.
-                    try:
-                        got, maxval = decode_ppm(data)
-                        ok = first_diff(c.want, got) == "identical" and maxval == CW_MAX[c.want.cw]
-                    except DecodeError:
-                        ok = False
-                    res.count("observed-only:save-ppm-wide:%s" % ("host-order-decode-identical" if ok else "differs"))
-                    continue
-                try:
-                    if fmtn == "png":
-                        got = decode_png(data)
-                    elif fmtn == "bmp":
-                        got = decode_bmp(data)
-                    else:
-                        got, maxval = decode_ppm(data)
-                        if maxval != CW_MAX[c.want.cw]:
-                            raise DecodeError("maxval", "maxval %d for %d-bit channels" % (maxval, c.want.cw))
-                except DecodeError as ex:
-                    res.violation("save:%s:invalid:%s" % (fmtn, ex.cls), "independent decoder rejects the file: %s" % ex,
-                                  c.name + " bytes=" + data[:96].hex() + ("..." if len(data) > 96 else ""))
-                    continue
-                d = first_diff(c.want, got)
-                if d == "identical":
-                    res.count("save-decoded-identical:" + fmtn)
-                else:
-                    res.violation("save:%s:%s" % (fmtn, "header-fields" if d.startswith(("header", "data length")) else "pixels"),
-                                  "independent decoder reads a different image: " + d, c.name)
+                judge_saved(res, "save", fmtn, data, c.want, c.name)
     if ran is not None:
         ran["begun"] = begun
         ran["ended"] = ended
@@ -965,8 +1048,9 @@ def stage(ctx, st):
         raise driver.Inconclusive("c06: %d cases have no END record although no executor died" % n_missing)
     for c in cases[:1] + cases[len(cases) // 2:len(cases) // 2 + 1] + cases[-1:]:
         res.samples.append("[%s] %s" % (c.fam, c.name))
-    res.samples.append("every prefix length 0..len-1 of each generated or saved file <= %d bytes through fmemopen "
-                       "(and a real ftruncate'd file for all BMP and a sample of PPM cases)" % MAXPREFIX)
+    res.samples.append("every prefix length 0..len-1 of each generated or saved file <= %d bytes through fmemopen; all BMP "
+                       "and a sample of PPM/saved files also through a real pipe and a real ftruncate'd file (fdopen, fopen, "
+                       "Image(const char*), Image(const std::string&)); every file fully loaded through a pipe" % MAXPREFIX)
     for g in groups:
         res.count("cases:" + g, len(groups[g]))
     return {"evaluations": res.evaluations, "classes": res.classes, "counters": res.counters,
